@@ -91,7 +91,7 @@ func monC04(c *drv.Ctx) {
 		o := readerOpts{}
 		if r.Intn(5) == 0 {
 			o.bytesReader = true
-			o.capClass = r.Intn(4)
+			o.capClass = r.Intn(5)
 			spec.ErrAt = spec.Len
 		}
 		cs.Desc = M{"ops": opsString(ops), "source": spec.desc(), "bytes_reader": o.bytesReader, "cap_class": o.capClass}
